@@ -163,24 +163,19 @@ def judge(case, impl):
 
 
 def known(case, impl, clause):
-    """F-C07-STALE-100: approx_err starts at 100.0 and is not recomputed when the new iterate is exactly 0, so a
-    tolerance above 100 (percent) accepts the iterate 0 whatever the function value there is."""
-    if clause != RESID:
+    """listed in known_findings.d/C07.json; each keyed on an input class read off the case"""
+    if clause != RESID or not impl.startswith('ok '):
         return None
     d = parse(case)
-    if not impl.startswith('ok '):
-        return None
     g = target_of(d)
-    x = Fraction(hex2f(impl[3:]))
-    X1 = abs(x) * (1 + Fraction(d['tol']) / 100)
-    if sum((k + 1) * abs(c) * X1 ** k for k, c in enumerate(g)) >= Fraction(2) ** 1000:
-        return ('F-C07-OVERFLOW when the evaluation of the target or of its derivative overflows (coefficients near '
-                'f64::MAX) the quotient g/g\' can round to 0 or to a tiny number, the step test passes and the unchanged '
-                'start is returned as a root; e.g. coefficients [-0, 1e300, 5e-324, f64::MAX, 1e-300] from -0.85365')
-    if hex2f(impl[3:]) == 0.0 and fin(d['tol']) and d['tol'] > 100:
+    # F-C07-OVERFLOW: a coefficient of the target at 2^1000 or above (near f64::MAX)
+    if any(abs(c) >= Fraction(2) ** 1000 for c in g):
+        return ('F-C07-OVERFLOW the evaluation of the target or of its derivative overflows, the quotient g/g\' rounds to '
+                '0 or to a tiny number, the step test passes and the unchanged start is returned')
+    # F-C07-STALE-100: tolerance above 100 (percent) and the returned iterate is exactly 0
+    if fin(d['tol']) and d['tol'] > 100 and hex2f(impl[3:]) == 0.0:
         return ('F-C07-STALE-100 the relative change starts at 100.0 and is not recomputed when an iterate is exactly 0: '
-                'with a tolerance above 100 (percent) the iterate 0 is returned although it is no root; '
-                'e.g. x^2 + 1 from 1 with tol 200 returns Ok(0)')
+                'a tolerance above 100 accepts the iterate 0 although it is no root')
     return None
 
 
